@@ -11,7 +11,8 @@ EXPLANATION = ("R10.1 triaged inventory of every may-panic construct (overflow/b
                "sites are accepted; R10.3 no user callback (format function, dyn LogWriter/LogLineFilter method, Display of the message) under a "
                "non-reentrant lock; R10.4 the lock-order graph is acyclic; R10.5 blocking receives only in the consumer loops; R10.6 no panicking "
                "RefCell borrow; R10.7 loop inventory: every loop is iterator-driven, receive-driven, or a triaged loop whose termination guard is "
-               "checked structurally. R10.1 also: the restart number is looked up in the same path component the sibling filter examined (F29 fixed).")
+               "checked structurally. R10.1 also: the restart number is looked up in the same path component the sibling filter examined (F29 fixed)."
+               " R10.8 (shared with R07.6): shutdown joins the cleanup thread while holding the state lock; on the decision rows of that thread a stop message taken from the channel by ANY receive (blocking or not) ends the thread, so the join returns.")
 ASSUMPTIONS = ["user format functions, writers and Display impls are total and return (they may log recursively)", "dependencies do not panic",
                "poisoning needs a panic under the lock, which R10.2 excludes"]
 NOT_DECIDED = ["termination of user code", "panics inside dependencies", "stack exhaustion of the 1 KiB flusher threads", "hangs caused by the OS"]
@@ -99,6 +100,11 @@ def run(R, ctx):
     R.rule('R10.5', 'blocking recv only in consumer loops')
     R.rule('R10.6', 'WHO-MAY-CALL(RefCell::borrow/borrow_mut) = nobody')
     R.rule('R10.7', 'LOOP-INVENTORY')
+    # a join() under the state lock returns only if the joined thread really stops on the stop message it was sent: decision rows of the cleanup
+    # thread (shared with R07.6) - a Die taken from the channel by whatever receive ends the thread, Acts are never left unserved
+    R.rule('R10.8', 'joined helper thread stops on its stop message (rows of the cleanup thread, shared with R07.6)')
+    import c07 as _c07
+    _c07.shutdown_rules(Relabel(R, {'R07.6': 'R10.8'}), ctx)
 
     entries = [b.path for b in pub_api_bodies(f)]
     spawned = [c for a, es in cg.spawn_edges.items() for (c, bb, k) in es]
